@@ -7,6 +7,6 @@ CONSTANTS
   TrafficChunk = 64
   MaxActive = 256
   TimingOn = TRUE
-  Modes = {"inline", "deferred"}
+  Modes = {"deferred"}
 INVARIANT TUniqueIds
 CHECK_DEADLOCK FALSE
